@@ -2023,7 +2023,7 @@ func runLifecycle(c lifecycleCase, sec *vh.Section) {
 			r.write(0, mkEvs("e", 3, 2), "direct")
 			srv.FlushWait()
 		case "recreate-after-removal":
-			time.Sleep(300 * time.Millisecond) // the clean-up has certainly run
+			time.Sleep(150 * time.Millisecond) // the clean-up has certainly run
 			r.write(0, mkEvs("e", 3, 2), "direct")
 			srv.FlushWait()
 		}
@@ -2135,9 +2135,21 @@ func sectionLifecycle(corpus []lifecycleCase) {
 			cs = append(cs, c)
 		}
 	}
+	// only the recreate variants use the (process-global) hook of the clean-up goroutine: they run one at a time; the others
+	// delete no pipe and run beside them
+	var wg sync.WaitGroup
 	for _, c := range cs {
-		runLifecycle(c, sec)
+		if !strings.HasPrefix(c.Variant, "recreate") {
+			wg.Add(1)
+			go func(c lifecycleCase) { defer wg.Done(); runLifecycle(c, sec) }(c)
+		}
 	}
+	for _, c := range cs {
+		if strings.HasPrefix(c.Variant, "recreate") {
+			runLifecycle(c, sec)
+		}
+	}
+	wg.Wait()
 	res.Done(sec)
 }
 
